@@ -410,7 +410,10 @@ def kwarg(call, name, pos=None):
         if d:
             ps = None
             last = d.split('.')[-1]
-            if last in sym.REPO_SIGS:
+            last2 = '.'.join(d.split('.')[-2:])
+            if d.split('.')[0] == 'FlowCal' and len(d.split('.')) == 3 and last2 in sym.REPO_SIGS:
+                ps = sym.REPO_SIGS[last2]
+            elif last in sym.REPO_SIGS:
                 ps = sym.REPO_SIGS[last]
             elif d.split('.')[0] in sym.EXT_ROOTS:
                 ps = sym._ext_params(d)
